@@ -13,6 +13,10 @@
     `read_trailing_backslashes`   the `read` built-in takes exactly the first logical line (shortest
                            prefix ending with the delimiter after an even number of backslashes) and
                            leaves exactly what follows it
+  ★ `redirs_undone_exactly`, `stdin_restored_after_command`, `script_cursor_after_command`,
+    `run_stdin_is_the_script`   whatever redirections of standard input the commands of a command line
+                           perform (`RedirGuard`), when they are over descriptor 0 is the description it
+                           was, its offset advanced by exactly what was consumed through it
 -/
 import YashModel.Input.Steps
 import YashModel.Input.Utf8
@@ -21,6 +25,7 @@ import YashModel.Input.SpecEq
 import YashModel.Input.Logical
 import YashModel.Input.Compose
 import YashModel.Input.RedirInv
+import YashModel.Input.RedirCursor
 import YashModel.Expansion.ReadLemmas
 import YashModel.Generated.InputConsts
 namespace YashModel.Input
@@ -1072,5 +1077,33 @@ theorem undo_order_is_the_codes :
   refine ⟨rfl, fun _ _ => rfl, ?_⟩
   intro rs c k s h
   simp [step, h, Generated.InputConsts.SYNTAX_ERROR]
+
+
+/-- ★ **after any commands with any redirections, the shell's input descriptor and its offset are what
+    they were plus what was consumed through that descriptor.**  In a shell whose standard input is the
+    script (`sh -s`), for every command list `cs` (any nesting of simple and compound commands, each
+    with any list of redirections of standard input, `eval`/`.`, subshells) run to its end from any
+    state: descriptor 0 is the script descriptor again, what is left of the script is a suffix of what
+    was there, and the offset advanced by exactly the length of the consumed prefix — bytes read while
+    descriptor 0 was redirected came from the here-document or file, not from the script (`Inside`:
+    whenever an `undo` is pending, descriptor 0 is a stream of its own; `step_cursor`). -/
+theorem script_cursor_after_command (n : Nat) (cs : List Cmd) (s : State)
+    (hfin : (runK n (cmds cs) s).2 = true) (hsh : s.shared = true) :
+    ∃ pre, s.inp = pre ++ (runK n (cmds cs) s).1.inp
+      ∧ (runK n (cmds cs) s).1.pos = s.pos + pre.length
+      ∧ (runK n (cmds cs) s).1.shared = true := runK_cmds_cursor n cs s hfin hsh
+
+set_option maxRecDepth 4000 in
+/-- `read v <<A <</r1`-like: a `read` under two redirections takes its line from the last target and
+    leaves the script (`p⏎`) and its offset alone; afterwards a `read` takes the script's line -/
+example :
+    (runK 10 (cmds [.redir [.here ['a', '\n'], .here ['b', '\n']]
+        (.simple [[.lit 'r' false, .lit 'e' false, .lit 'a' false, .lit 'd' false], [.lit 'v' false]] none)])
+      (initState true [112, 10] [])).1.inp = [112, 10]
+    ∧ (runK 10 (cmds [.redir [.here ['a', '\n'], .here ['b', '\n']]
+        (.simple [[.lit 'r' false, .lit 'e' false, .lit 'a' false, .lit 'd' false], [.lit 'v' false]] none)])
+      (initState true [112, 10] [])).1.vars = [("v", "b")] := by
+  refine ⟨?_, ?_⟩ <;> decide
+
 
 end YashModel.Input
